@@ -162,7 +162,8 @@ spec("C05", jobs=c05_jobs,
                 "priority operations on one or two real cmb_resource objects; every choice sequence within the deviation "
                 "bound is executed on the real library; after every library call and every dispatcher event the monitor "
                 "compares holder, in-use, available, held-by and each process's own record with the holder implied by the "
-                "call history, and flags any second successful acquire.",
+                "call history, and flags any second successful acquire. Scripted 'hog' configurations make one waiter lose the hand-over "
+                "race to a re-acquiring releaser two and three times in a row (re-check loops need more than one iteration).",
      level_note=DES_NOTE, budget=dict(quick=900, thorough=7200),
      rule="executions = distinct choice sequences within the deviation bound; distinct_nontrivial = distinct outcome signatures "
           "(hash of every (process, call, return value, time)); states = distinct canonical library+driver states at observation points",
@@ -249,9 +250,11 @@ spec("C04", jobs=c04_jobs,
                 "wait-for-event, interrupts, stops, exit and one blocking call per guard type; all choice sequences within the "
                 "deviation bound run on the real library. The monitor keeps, per process, the set of undelivered notifications "
                 "(timers, interrupts, resumes, preemptions, cancellations, 'awaited thing happened') and checks: hold success at "
-                "start+d exactly (R1); every other return is justified by exactly one notification due now (R2/R3); after a return "
-                "nothing of the finished call is left behind - pending events, queue memberships, registrations (R4); nobody is "
-                "left suspended past the instant in which what it waits for happened (R5).",
+                "start+d exactly (R1); every other return is justified by exactly one notification due now (R2/R3); if after a return "
+                "something of the finished call is left behind - pending events, queue memberships, registrations - the process "
+                "runs only sentinel waits (long hold / bare yield / never-true condition, enumerated) and any disturbance of those "
+                "is the violation (R4, semantic: an inert leftover is not one); nobody is left suspended past the instant in which "
+                "what it waits for happened (R5).",
      level_note=DES_NOTE + " Latitude: several notifications due in one instant may be delivered in any order; timers and "
                 "other pending notifications become optional once an interrupt or preemption has been delivered.",
      budget=dict(quick=1500, thorough=7200),
@@ -303,7 +306,7 @@ def c06_jobs(tier):
 spec("C06", jobs=c06_jobs,
      technique="explicit-state search over process programs through the real dispatcher; ordering invariant evaluated at every step in which a waiter leaves a waiting list",
      level_text="Per guard type (resource, pool, buffer ends, object queue, priority queue, condition) four to six processes with "
-                "priorities from {0,1,2} and the int64 extremes arrive in the same or different instants, leave by grant, timeout, "
+                "priorities from {0,1,2}, the int64 extremes and neighbouring values at INT64_MAX, INT64_MIN and 2^53 arrive in the same or different instants, leave by grant, timeout, "
                 "interrupt, stop, and change priorities while waiting. The monitor snapshots every waiting list after every call "
                 "and event; when a suspended process leaves a list because it was served, no process that stays behind may have a "
                 "higher current priority, or equal priority and an earlier start of waiting (the monitor's own observation); "
@@ -483,7 +486,7 @@ spec("C13", jobs=c13_jobs,
      technique="explicit-state search over process programs through the real dispatcher; at every signal point the monitor evaluates every waiter's predicate itself and compares with who was woken",
      level_text="One condition with 2-3 waiters whose predicates are drawn from {X>=1, X>=2, X==0, 'resource free', 'pool has >=2'}, "
                 "state changes, explicit signals, signals forwarded from an observed resource / pool guard (both registration "
-                "routes), cancel and remove by name, timeouts/interrupts/stops of waiters. At each explicit or forwarded signal the "
+                "routes, also subscribed and unsubscribed while the simulation runs), cancel and remove by name, timeouts/interrupts/stops of waiters. At each explicit or forwarded signal the "
                 "monitor evaluates every waiter's predicate: satisfied waiters must be taken off the queue and return SUCCESS within the "
                 "instant, unsatisfied ones must stay; every SUCCESS/CANCELLED return must be justified; cancel/remove must take out "
                 "exactly the named process.",
@@ -537,7 +540,9 @@ spec("C14", jobs=c14_jobs,
                 "put/get/cancel, rollbacks of interrupted acquisitions, drops on stop/exit and several changes per instant happen. "
                 "The monitor samples the true value after every call and event; when recording stops (or at the end) the history must "
                 "have non-decreasing times inside the interval, only values the object actually went through, the same value as the "
-                "truth at the end of every instant, and a time-weighted mean equal to the exact time average (1e-12).",
+                "truth at the end of every instant, and a time-weighted mean equal to the exact time average (1e-12); the object's "
+                "printed report (the user-facing route to the utilisation) must be printable and show that mean to its four digits. "
+                "A second set of jobs runs under the floating-point trap mask cimba_run_experiment gives its worker threads.",
      level_note=DES_NOTE + " Latitude: a change undone within the same instant needs no sample of its own; one recording interval per execution.",
      budget=dict(quick=1500, thorough=7200),
      rule="executions = distinct choice sequences within the deviation bound, per object type; distinct_nontrivial = distinct outcome signatures",
@@ -618,7 +623,10 @@ spec("C10", jobs=c10_jobs, crash_is_violation=True,
                 "(2) Threshold ramps enumerate container populations on both sides of every growth point crossed with the operation "
                 "that triggers growth while the library holds a pointer into the container: waiters on an event / a process x event "
                 "queue population (8/16/32), waiting lists and holder lists at 7-9 and 15-17 entries x interrupt/stop/priority change/"
-                "timeout/cancel, 8189-8196 armed timers of one process (64 tag chunks), 16381-16387 queued objects and observers.",
+                "timeout/cancel, 8189-8196 armed timers of one process (64 tag chunks), 16381-16387 queued objects and observers. "
+                "(3) 'Closing': every object type, heap-allocated (create/destroy), x {never recorded, recorded nothing, one change, "
+                "two changes} x finalize x printed report, and the event queue printed with 0/1/9 events, also under the "
+                "floating-point trap mask of cimba_run_experiment.",
      level_note="Trusted: the driver's validity predicate (a crash on a program it generated is triaged by replay), AddressSanitizer, "
                 "UBSan (alignment and null checks off: the tree uses offsetof-by-null-pointer and one deliberate unaligned store), "
                 "the explorer's crash classification. The shipped -O3/LTO build is not the one explored.",
@@ -652,7 +660,9 @@ spec("C17", jobs=c17_jobs,
                 "mean/variance/stddev/skewness/kurtosis against __float128 two-pass statistics; every split point, both merge "
                 "orders and all three target aliasings (including empty operands) must give the summary of the concatenation; "
                 "weighted: exact weighted mean, zero weights ignored, unit weights = unweighted, every statistic unchanged when all "
-                "weights are multiplied by 3, 1/4, 1e6.",
+                "weights are multiplied by 3, 1/4, 1e6. Every statistic and the printed summary line are evaluated for every input "
+                "(also constant data), and a second set of jobs repeats the enumeration under the floating-point trap mask that "
+                "cimba_run_experiment gives its worker threads: a 0/0 inside the library ends the execution with SIGFPE there.",
      level_note="Trusted: the quad-precision reference and tolerances in harness/c17_summary.c (1e-6 of a magnitude scale for moments: "
                 "rounding is 1e-13, a wrong coefficient is O(1)). Skewness/kurtosis are compared only for well-conditioned data "
                 "(spread > 1e-7 of the magnitude) and not for constant data, where they are undefined.",
@@ -684,7 +694,8 @@ spec("C18", jobs=c18_jobs,
                 "(sorted, reverse, constant, saw-tooth), and for time series every duration pattern over {1,0,5}: sort (same multiset, "
                 "ascending, (value,time,weight) triples intact, sort-by-time restores order), copies exact and extendable (under "
                 "ASan), median a true (weighted) median inside the data range, five-number output parsed from the printed report "
-                "monotone and inside the range, histogram bins (dataset and time-weighted fill) adding up to the sample count / total "
+                "monotone, inside the range and with a median that is a true (weighted) median, min/max, finalize (last sample gets "
+                "its duration; empty series), histogram bins (dataset and time-weighted fill) adding up to the sample count / total "
                 "weight for bin counts {1,2,5} and four ranges incl. autoscale, ACF/PACF one at lag 0 and invariant under shifts "
                 "+1000/-7 and scalings 2, 1/2, 2^-20.",
      level_note="Trusted: the definitions coded in harness/c18_data.c; the time-weighted histogram fill is reached by compiling "
@@ -800,7 +811,9 @@ spec("C19", jobs=c19_jobs,
                 "content selected by the element: a random-number probe (flip/gamma/geometric caches), a process/resource model with "
                 "same-instant ties, a trial that changes logger flags, a trial that leaves blocked processes and populated tag pools. "
                 "Every entry to and return from the trial function is a scheduling point: all assignments and completion orders up "
-                "to 2-3 preemptions are enumerated; every counter must be 1 and every result equal to a sequential reference run.",
+                "to 2-3 preemptions are enumerated; every counter must be 1 and every result equal to a sequential reference run. "
+                "Each result also contains what the trial sees of thread-local state on entry: the simulation clock, the current "
+                "process, the rounding mode, flush-to-zero / denormals-are-zero and a computation through the subnormal range.",
      level_note="Trusted: the scheduler (engine/vx_sched.c), the link-time wrapping, ThreadSanitizer for the free-running pass. "
                 "Atomicity inside the dispenser statement is visible only to the TSan pass (a race), not to the serialising scheduler.",
      budget=dict(quick=900, thorough=5400),
@@ -839,7 +852,12 @@ spec("C16", jobs=c16_jobs,
                 "parameter combinations of the multi-draw samplers, every sequence of K raw words over a 40-word adversarial "
                 "alphabet (extremes, a grid of the top bits, every ziggurat branch via the low byte): inside the support, terminates, "
                 "and equal (1e-12) to the textbook construction of the stated distribution from the same raw words (inversion, "
-                "Marsaglia-Tsang with the shape<1 boost everywhere, sums, Bernoulli sums).",
+                "Marsaglia-Tsang with the shape<1 boost everywhere, sums, Bernoulli sums); cmb_random_std_gamma is also called "
+                "directly with shapes below one. (iv) Probability vectors: every vector of length <= 5 (6) over the weights "
+                "{0,1,2,5}: the alias table gives every outcome exactly its probability (zero for a zero entry) and neither "
+                "alias_sample nor loaded_dice ever returns an outcome of probability zero on a lattice of raw words. (v) Lattice, "
+                "vectors and sequences again under the floating-point trap mask that cimba_run_experiment gives its worker threads "
+                "(log(0), 0/0, sqrt(<0) inside a sampler end the execution with SIGFPE there).",
      level_note="Trusted: the reference constructions and distribution functions in harness/c16_dist.c (written from the textbook "
                 "formulas), hook H2. NOT decided by this family: the literal convergence clause for rejection samplers is a limit "
                 "statement; what is decided is support on adversarial raw words, algorithmic equivalence with the standard "
